@@ -91,6 +91,19 @@ func (c *svc) runRace(x *engine.Ctx, t *tape.Tape, weights [6]int) *raceRun {
 		rr.reqs = append(rr.reqs, rs)
 		rounds = append(rounds, ss)
 	}
+	// bursts of cheap requests (no proofs): volume is what makes short windows observable
+	nb := 6 + t.Draw(4)
+	for i := 0; i < nb; i++ {
+		var rs []*service.Request
+		var ss []spec
+		for j := 0; j < 24; j++ {
+			r := gen.Cheap()
+			rs = append(rs, r)
+			ss = append(ss, spec{r.Method, r.Body})
+		}
+		rr.reqs = append(rr.reqs, rs)
+		rounds = append(rounds, ss)
+	}
 	rb, _ := json.Marshal(rounds)
 	reqPath, outPath, logPath := filepath.Join(dir, "requests.json"), filepath.Join(dir, "out.json"), filepath.Join(dir, "race")
 	os.WriteFile(reqPath, rb, 0o644)
